@@ -876,7 +876,9 @@ Proof.
     intros iv s1 A1 A2 A3 A4 A5 P1. fold t1 in A1, A3, A4.
     apply lift_step; [exact P1|]. intros items0 E2.
     assert (G0 : Forall (vgood (s_clos s1)) items0).
-    { destruct iv; try discriminate; try (destruct (u_strictish _); try discriminate); injection E2 as <-; first [apply vgood_list; exact A2 | constructor]. }
+    { destruct iv; try discriminate; try (destruct (u_strictish _); try discriminate); injection E2 as <-;
+      first [apply vgood_list; exact A2 | constructor
+            | (apply Forall_forall; intros w Hw; apply in_map_iff in Hw as (ch & <- & _); exact I)]. }
     assert (A1T := step_ok_weaken c _ _ _ _ A1 O1T).
     (* the filter pass *)
     eapply (sub_step (t_out T) (t_out tfv) s s1 _ _ (fun p => step_ok c (t_out tfv) s1 (snd p) /\ Forall (vgood (s_clos (snd p))) (fst p))); [exact P1|exact OfT| |].
